@@ -30,3 +30,35 @@ func init() {
 		RequiredCovers: []string{"trailing-slash-in"},
 	}
 }
+
+func init() {
+	c10n := func(tier string) int {
+		if tier == "thorough" {
+			return 8
+		}
+		return 6
+	}
+	props["C10"] = &PropSpec{
+		ID: "C10",
+		Jobs: func(tier string) []*Job {
+			var js []*Job
+			for lim := 0; lim < 3; lim++ {
+				for n := 0; n <= c10n(tier); n++ {
+					if lim > 0 && n > c10n(tier)-1 {
+						continue
+					}
+					js = append(js, &Job{Harness: "C10Parse", Params: map[string]int{"n": n, "limits": lim}})
+				}
+			}
+			return js
+		},
+		Bounds: func(tier string) string {
+			return fmt.Sprintf("C10(a): every pattern string of 0..%d bytes over the full byte alphabet with default limits, 0..%d bytes with (maxParams,maxKeyBytes) in {(1,1),(2,3)}", c10n(tier), c10n(tier)-1)
+		},
+		RequiredCovers: []string{"accepted", "rejected", "accepted with hostname", "accepted with wildcard", "dont-care region"},
+		Assumptions: []string{
+			"grammar don't-care regions (neither acceptance nor rejection asserted): '_' in a host label, an all-numeric last label beside non-numeric ones, '-' directly before a host {param}",
+			"fmt.Errorf modelled (message opaque, %w operands kept); errors.Is modelled by walking Unwrap",
+		},
+	}
+}
